@@ -575,7 +575,59 @@ def run_class(case, res):
         res.count("class/unknown_refused")
     else:
         res.violation("class", "unknown-class-name-resolved", {"name": case["unknown"], "got": repr(got)})
+    runners_in_one_process(case, res)
     res.seen(canon_hash([case["names"], case["user"], case["clash"], case["unknown"]]), True)
+
+
+def runners_in_one_process(case, res):
+    """a parameter sweep: several runners one after the other, each registering its own class under the same name
+    (a class factory / a local class per experiment); the last one registers nothing and must be refused."""
+    import contextlib
+    import io
+
+    from pams.agents import Agent
+    from pams.events import EventABC
+    from pams.runners.sequential import SequentialRunner
+
+    name_a, name_e = case["user"][0], case["user"][1] + "Event"
+
+    def experiment(k, register=True):
+        ag = type(name_a, (Agent,), {"variant": k, "submit_orders": lambda self, markets: []})
+        evc = type(name_e, (EventABC,), {"variant": k, "setup": lambda self, settings, *a, **kw: None,
+                                         "hook_registration": lambda self: []})
+        cfg = {"simulation": {"markets": ["M"], "agents": ["G"],
+                              "sessions": [{"sessionName": 0, "iterationSteps": 1, "withOrderPlacement": True,
+                                            "withOrderExecution": True, "withPrint": False, "events": ["E"]}]},
+               "M": {"class": "Market", "tickSize": 1.0, "marketPrice": 100.0},
+               "G": {"class": name_a, "numAgents": 2 + k, "markets": ["M"], "cashAmount": 100, "assetVolume": 1},
+               "E": {"class": name_e}}
+        r = SequentialRunner(settings=cfg, prng=random.Random(k))
+        if register:
+            r.class_register(ag)
+            r.class_register(evc)
+        with contextlib.redirect_stdout(io.StringIO()):
+            r._setup()
+        return r, ag, evc
+
+    for k in range(3):
+        try:
+            r, ag, evc = experiment(k)
+        except Exception as e:  # noqa
+            res.violation("class", "registered-user-class-not-resolved", {"name": name_a, "runner": k, "exc": repr(e)})
+            return
+        agents = r.simulator.agents
+        if len(agents) != 2 + k or any(type(a) is not ag for a in agents):
+            res.violation("class", "class-name-resolved-to-a-different-class",
+                          {"name": name_a, "runner_in_this_process": k + 1,
+                           "variants_built": sorted({getattr(a, "variant", None) for a in agents}), "registered_variant": k})
+            return
+        res.count("class/own_class_of_a_later_runner_resolved")
+    try:
+        experiment(9, register=False)
+    except Exception:  # noqa
+        res.count("class/unknown_refused")
+    else:
+        res.violation("class", "unknown-class-name-resolved", {"name": name_a, "after_earlier_runners_registered_it": True})
 
 
 # ---------------------------------------------------------------------------
